@@ -146,6 +146,21 @@ def _has_mandatory(ir, t, v):
 
 def has_unspellable_items(ir, t, v):
     """an array item without any spelled member leaves no trace in a query string"""
+    def empty_object(t, v):
+        # (looked for in the value as given: normalisation below turns such an object into "absent")
+        if v is None:
+            return False
+        if 'ref' in t and isinstance(v, dict):
+            fl = gen.all_fields(ir, v.get('__class__', t['ref']))
+            if fl and all(v.get(fn) in (None, [], ()) for fn, ft in fl):
+                return True
+            return any(empty_object(ft, v.get(fn)) for fn, ft in fl)
+        inner = t.get('array') or t.get('seq')
+        if inner is not None and isinstance(v, (list, tuple)):
+            return any(empty_object(inner, x) for x in v)
+        return False
+    if empty_object(t, v):
+        return True
     v = fnorm(ir, t, v)
     def walk(t, v):
         if v is None:
@@ -156,6 +171,9 @@ def has_unspellable_items(ir, t, v):
                 return any(x is None for x in v) or any(walk(inner, x) for x in v)
             return False
         if 'ref' in t and isinstance(v, dict):
-            return any(walk(ft, v.get(fn)) for fn, ft in gen.all_fields(ir, v.get('__class__', t['ref'])))
+            fl = gen.all_fields(ir, v.get('__class__', t['ref']))
+            if fl and all(v.get(fn) in (None, [], ()) for fn, ft in fl):
+                return True          # an object without any spelled member is indistinguishable from no object
+            return any(walk(ft, v.get(fn)) for fn, ft in fl)
         return False
     return walk(t, v)
